@@ -116,6 +116,20 @@ int main(int argc, char** argv) {
         std::string label = nm + (kind >= 2 ? " (managed)" : "");
         for (int64_t t = (int64_t)((a.seed * 7919 + zi * 60) % grid); t < T_END - 2; t += grid) check_instant(tz, label.c_str(), t, oz.e[oz.at(t)].utoff, tg, true);
         for (size_t k = 1; k < oz.e.size(); k++) { int64_t b = oz.e[k].start; if (b < 10 || b >= T_END - 10) continue; for (int d = -2; d <= 2; d++) check_instant(tz, label.c_str(), b + d, oz.e[oz.at(b + d)].utoff, tg, true); }
+        // same zone, two instants exactly one offset drop apart across a fall-back: identical local fields, different instants.
+        // compareTo must order them by instant and == must tell them apart.
+        for (size_t k = 1; k < oz.e.size(); k++) {
+          int64_t b = oz.e[k].start; int32_t drop = oz.e[k - 1].utoff - oz.e[k].utoff;
+          if (drop <= 0 || b - drop < 10 || b + drop >= T_END - 10) continue;
+          if (k + 1 < oz.e.size() && oz.e[k + 1].start < b + drop) continue;   // another change inside the overlap
+          if (oz.e[k - 1].start > b - drop) continue;
+          for (int64_t t1 : {b - 1, b - drop, b - drop / 2, b - drop + 1}) {
+            ZonedDateTime z1 = ZonedDateTime::forEpochSeconds((acetime_t)t1, tz), z2 = ZonedDateTime::forEpochSeconds((acetime_t)(t1 + drop), tz);
+            g_cmp++;
+            if (z1.compareTo(z2) != -1 || z2.compareTo(z1) != 1 || z1 == z2)
+              violation("c05:compareTo-order", fmt("{\"zone\":\"%s\",\"epochSeconds\":[%lld,%lld],\"note\":\"same local fields on both sides of a fall-back\",\"compareTo\":%d,\"equal\":%d}", label.c_str(), (long long)t1, (long long)(t1 + drop), z1.compareTo(z2), (int)(z1 == z2)));
+          }
+        }
         c.add("zone_kind_pairs");
       }
     }
